@@ -25,6 +25,11 @@ def cases(tier, seed, args):
                         scale_ref=float(10.0 ** rng.integers(-6, 7))))
     for i in range(4 if q else 20):
         out.append(dict(t='sisdr', T=4096, lead=1, seed=int(rng.integers(1 << 30)), scale=1.0, scale_ref=1.0, small=True))
+    for i in range(16 if q else 120):
+        # near-perfect estimates (true SI-SDR 90 .. 150 dB)
+        out.append(dict(t='sisdr_hi', T=int(rng.choice([8, 16, 33, 64])), lead=int(rng.integers(1, 4)), seed=int(rng.integers(1 << 30)),
+                        gain=int(10 ** int(rng.integers(4, 8)) * rng.choice([1, 3, -2])), scale=float(10.0 ** rng.integers(-6, 7)),
+                        scale_ref=float(10.0 ** rng.integers(-6, 7))))
     for i in range(80 if q else 800):
         K = int(rng.integers(1, 5))
         out.append(dict(t='input', K=K, D=int(rng.integers(1, 6)), T=int(rng.choice([8, 16, 40, 64])),
@@ -77,6 +82,18 @@ def run_case(case):
         return [dict(kind='sisdr', est=enc.aint(est), ref=enc.aint(ref), exc=exc,
                      out=[] if out is None else enc.aflt(_lin(np.atleast_1d(out))),
                      fp='fn=si_sdr', key=f'sisdr:{case["seed"]}')]
+    if t == 'sisdr_hi':
+        T, L = case['T'], case['lead']
+        ref = rng.integers(-6, 7, size=(L, T))
+        ref[:, 0] = np.where(np.abs(ref).sum(-1) == 0, 1, ref[:, 0])
+        res = rng.integers(-3, 4, size=(L, T))
+        G = int(case['gain'])
+        est = (ref.astype(np.float64) * G + res) * case['scale']       # exact in double precision (|values| < 2^53)
+        r_ = ref.astype(np.float64) * case['scale_ref']
+        out, exc = _call(module_si_sdr.si_sdr, r_, est)
+        return [dict(kind='sisdr_hi', ref=enc.aint(ref), res=enc.aint(res), gain=[G] * L, exc=exc,
+                     out=[] if out is None else enc.aflt(_lin(np.atleast_1d(out))),
+                     fp=f'fn=si_sdr;near_perfect;gain={G:g}', key=f'sisdrhi:{case["seed"]}')]
     if t == 'input':
         K, D, T = case['K'], case['D'], case['T']
         im = rng.integers(-5, 6, size=(K, D, T))
